@@ -995,6 +995,12 @@ def gen_lvalue(node, code, codegen):
     if node.implicit_decl and node.implicit_decl.type.is_array:
         gen_static_array_init(node.implicit_decl, code, codegen)
 
+    if node.type.is_user_defined or node.type.is_array:
+        raise CompileError(
+            EC.TYPE_MISMATCH,
+            'A whole record or array cannot be used as a value',
+            node=node)
+
     base_var = node.get_base_variable()
     if base_var.is_global:
         scope = 'g'  # global
